@@ -24,7 +24,9 @@ def parseSrc (s : String) : Option Src :=
   else if s = "random" then some .random else if s = "siblings" then some .siblings
   else if s = "psUniqueName" then some .psUniqueName else if s = "psMemo" then some .psMemo
   else if s = "psTemplateCache" then some .psTemplateCache
-  else if s = "psModelCache" then some .psModelCache else none
+  else if s = "psModelCache" then some .psModelCache
+  else if s = "psCompileFold" then some .psCompileFold
+  else if s = "psSharedMutable" then some .psSharedMutable else none
 
 def parseSrcs (s : String) : Option (List Src) :=
   if s = "-" then some [] else (splitOnChar s ',').mapM parseSrc
@@ -79,7 +81,7 @@ def answer (line : String) : String :=
   | ["flags"] =>
       s!"uniqreset={b01 Gen.TplFlows.resetsUniqueNamesPerFile} incsort={b01 Gen.TplFlows.includeGeneratorSorts} " ++
       s!"platform={b01 Gen.TplFlows.platformVersionAuditOffOnly} ppreset={b01 Gen.TplFlows.linePPResetPerFile} " ++
-      s!"cachedprop={b01 Gen.TplFlows.cachedPropertyPerInstance}"
+      s!"cachedprop={b01 Gen.TplFlows.cachedPropertyPerInstance} lazycompile={b01 Gen.TplFlows.templatesCompiledLazily}"
   | ["clean", lang, kind, cs] =>
       match findLang lang, parseKind kind, parseSrcs cs with
       | some L, some k, some cs => b01 (L.rootsCleanFor cs k)
